@@ -1,6 +1,7 @@
 import ArimModel.Chunk
 import ArimProofs.Tie.C02
 import ArimProofs.Tie.C01
+import ArimProofs.Tie.C13
 import ArimProofs.Lemmas.Chunk
 /-! # C13 — results do not depend on threads, block sizes or completion order
 
@@ -658,5 +659,44 @@ theorem src_find_minimum_times_tiled {α : Type} [LinearOrder α] [Add α] [Sub 
   tiled_result _ s n m p block hb hm ops h i j
 
 end OnSource
+
+/-! ## On the source: `chunk_array` as translated from `/repo/src/arim/helpers.py` on every run -/
+section OnSourceChunks
+open Arim.Tie.C13
+
+variable {K : Type} [Add K] [Sub K] [Mul K] [Div K] [Neg K]
+
+/-- **the slices `chunk_array` yields partition the axis**: for every block size `≥ 1`, every axis length (also `0`, also
+shorter than one block) and every position of the axis, the yielded slices, clipped to the axis as NumPy does when the
+index tuple is used, are non-empty, pairwise disjoint, and every index of the axis lies in exactly one of them; nothing
+outside the axis is selected -/
+theorem src_chunk_array_partition (o : Src.Ops K) (shape : Nat → Nat) (ndim b axis : Nat) (hb : 0 < b) :
+    (∀ r ∈ (Src.chunk_array o shape ndim b axis).map (clip (shape axis)), r.1 < r.2) ∧
+    ((Src.chunk_array o shape ndim b axis).map (clip (shape axis))).Pairwise SliceDisjoint ∧
+    (∀ x, x < shape axis → ((Src.chunk_array o shape ndim b axis).map (clip (shape axis))).countP (inSlice x) = 1) ∧
+    (∀ x, ((Src.chunk_array o shape ndim b axis).map (clip (shape axis))).any (inSlice x) = decide (x < shape axis)) := by
+  rw [tie_chunk_array_clipped]
+  exact ⟨fun r hr => chunks_nonempty _ b hb r hr, chunks_pairwise_disjoint _ b hb,
+    fun x hx => chunks_cover_unique _ b x hb hx, fun x => chunks_any _ b x hb⟩
+
+/-- the number of tasks is `ceil(L / b)` and the slice sits at the position of the split axis in every index tuple -/
+theorem src_chunk_array_count (o : Src.Ops K) (shape : Nat → Nat) (ndim b axis : Nat) :
+    (Src.chunk_array o shape ndim b axis).length = numChunks (shape axis) b ∧
+    ∀ t ∈ Src.chunk_array o shape ndim b axis, t.1 = axis := by
+  refine ⟨?_, tie_chunk_array_position o shape ndim b axis⟩
+  rw [tie_chunk_array]; simp
+
+/-- **block-size independence of what is covered**: two positive block sizes select, all slices together, the same set of
+indices of the axis (all of them) -/
+theorem src_chunk_array_block_independent (o : Src.Ops K) (shape : Nat → Nat) (ndim b b' axis : Nat) (hb : 0 < b) (hb' : 0 < b') (x : Nat) :
+    ((Src.chunk_array o shape ndim b axis).map (clip (shape axis))).any (inSlice x) =
+      ((Src.chunk_array o shape ndim b' axis).map (clip (shape axis))).any (inSlice x) := by
+  rw [(src_chunk_array_partition o shape ndim b axis hb).2.2.2 x, (src_chunk_array_partition o shape ndim b' axis hb').2.2.2 x]
+
+/-- non-vacuity: the docstring's example, `chunk_array((10,), 3)` -/
+example : (Src.chunk_array (K := Int) ⟨id, id, id, id, id, id, 0, fun n => n, id, id, id, id⟩ (fun _ => 10) 1 3 0).map (clip 10)
+    = [(0, 3), (3, 6), (6, 9), (9, 10)] := by decide
+
+end OnSourceChunks
 
 end Arim.C13
